@@ -45,7 +45,8 @@ type msEntry struct {
 	mid   [2]string
 	owner int
 	recv  string
-	ind   bool // reached through an embedded pointer
+	ind   bool  // reached through an embedded pointer
+	path  []int // embedded fields (0-based type indices) to the owner
 }
 
 type jsModel struct {
@@ -132,13 +133,14 @@ func (m *jsModel) methodSet(i int, ptr bool) map[string]msEntry {
 		return r
 	}
 	type ent struct {
-		ty  int
-		ind bool
+		ty   int
+		ind  bool
+		path []int
 	}
 	base := map[string]msEntry{}
 	blocked := map[string]bool{}
 	seen := map[string]bool{}
-	current := []ent{{i, ptr}}
+	current := []ent{{i, ptr, nil}}
 	for len(current) > 0 {
 		var next []ent
 		var mset []msEntry
@@ -157,14 +159,14 @@ func (m *jsModel) methodSet(i int, ptr bool) map[string]msEntry {
 			for pass := 0; pass < 2; pass++ { // value-receiver list first, then the pointer-receiver list
 				for k, d := range td.Decl {
 					if (pass == 0 && d == "v") || (pass == 1 && d == "p" && e.ind) {
-						mset = append(mset, msEntry{m.midOf(e.ty, k), e.ty, d, e.ind})
+						mset = append(mset, msEntry{m.midOf(e.ty, k), e.ty, d, e.ind, e.path})
 					} else if pass == 1 && d == "p" && !e.ind && !m.fl.ptrShadow {
 						shadow = append(shadow, m.key(m.midOf(e.ty, k)))
 					}
 				}
 			}
 			for _, f := range td.Emb {
-				next = append(next, ent{f.To - 1, e.ind || f.Kind == "p"})
+				next = append(next, ent{f.To - 1, e.ind || f.Kind == "p", append(append([]int{}, e.path...), f.To-1)})
 			}
 		}
 		count := map[string]int{}
@@ -262,7 +264,7 @@ func (m *jsModel) resolve(i int, ptrProto bool, mid [2]string, depth int) (msEnt
 			continue
 		}
 		if d == "v" || ptrProto {
-			return msEntry{m.midOf(i, k), i, d, false}, true
+			return msEntry{m.midOf(i, k), i, d, false, nil}, true
 		}
 	}
 	for _, f := range td.Emb {
@@ -274,6 +276,7 @@ func (m *jsModel) resolve(i int, ptrProto bool, mid [2]string, depth int) (msEnt
 		if has {
 			e, ok := m.resolve(j, true, mid, depth+1)
 			e.ind = e.ind || f.Kind == "p"
+			e.path = append([]int{j}, e.path...)
 			return e, ok
 		}
 	}
@@ -286,7 +289,7 @@ func (m *jsModel) dispatch(d Disp, nameIdx int) (string, bool) {
 	var e msEntry
 	switch d.Form {
 	case "direct", "mvalV", "mvalP":
-		e = msEntry{mid, d.Target - 1, d.Recv, m.t.Lk[d.I-1][d.M-1].Ind} // resolved statically by the compiler (go/types)
+		e = msEntry{mid, d.Target - 1, d.Recv, m.t.Lk[d.I-1][d.M-1].Ind, specPath(d)} // resolved statically by the compiler (go/types)
 	case "ifaceV", "mvalIV", "mexprV":
 		var ok bool
 		if e, ok = m.resolve(d.I-1, false, mid, 0); !ok {
@@ -312,7 +315,33 @@ func (m *jsModel) dispatch(d Disp, nameIdx int) (string, bool) {
 		b = a + 1
 	}
 	code := (e.owner+1)*100 + nameIdx*10
-	return fmt.Sprintf("%d %d", code+a, code+b), true
+	if !hasX(d.Form) {
+		return fmt.Sprintf("%d %d", code+a, code+b), true
+	}
+	// the counter the program reads afterwards is the one of the object Go's selector denotes
+	cfin := 0
+	if d.Form == "mvalV" || d.Form == "mvalP" || d.Form == "mvalIP" {
+		cfin = 1 // bumped
+	}
+	mutates := e.recv == "p" || shared
+	if d.Form == "mexprV" {
+		mutates = mutates && e.ind
+	}
+	if (d.Form == "mvalV" || d.Form == "mvalP") && e.recv == "v" {
+		mutates = false // the method value holds a clone made when it was bound; the calls share that clone
+	}
+	if mutates && fmt.Sprint(e.path) == fmt.Sprint(specPath(d)) {
+		cfin += 2
+	}
+	return fmt.Sprintf("%d %d %d", code+a, code+b, cfin), true
+}
+
+func specPath(d Disp) []int {
+	var p []int
+	for _, j := range d.Path {
+		p = append(p, j-1)
+	}
+	return p
 }
 
 func (m *jsModel) switchArm(k int, arms []Arm) int {
